@@ -193,7 +193,8 @@ def run(ctx):
         if not tests: continue            # delegates (checked at the callee) 
         n_ref += 1
         allowed = {norm(ast.parse(k, mode='eval').body, limit=1000): v for k, v in NOOP_RETURNS.get(f.qual, {}).items()}
-        allowed_nodes = {n.id for n in g.nodes if n.kind == 'test' and norm(n.ast, limit=1000) in allowed}
+        from ..typestate import resolve_flags
+        allowed_nodes = {n.id for n in g.nodes if n.kind == 'test' and (norm(n.ast, limit=1000) in allowed or norm(resolve_flags(f.node, n.ast, attrs=True), limit=1000) in allowed)}
         for k in allowed: ctx.exception('C32-LIVE', '%s: `%s`' % (f.qual, k), allowed[k])
         r = g.reach([g.entry], avoid=tests, edge_ok=lambda x, y, lab: not (x in allowed_nodes and lab == 'T'))
         ok = g.exit.id not in r
